@@ -3,7 +3,7 @@ import re
 
 from ..facts import Broken, strip, const, walk, walk_eval, show, macro_name
 from ..interp import path
-from .. import cfgq
+from .. import cfgq, memrules
 
 VALUE_PTR_TYPES = ("cif_value_tp *", "UChar *", "const UChar *", "cif_packet_tp *", "UChar **", "struct numb_value_s *",
                    "struct list_value_s *", "struct table_value_s *", "struct char_value_s *", "const char *", "char *")
@@ -377,3 +377,12 @@ def run(prog, chk):
         r4.ok("cif_value_insert_element_at", "%d slot writes behind `size < capacity` or a successful realloc" % len(writes))
     else:
         r4.violation(ins.file, ins.name, ins.line, "slot-write-without-room", "a slot is written without room having been established")
+    if memrules.growth_positive(prog, r4) < 1:
+        raise Broken("no additive capacity growth feeding realloc found")
+
+    r5 = chk.rule("R5-map-key-aliasing", "packet / table entries may hold key_orig == key: replacing or releasing one of the two "
+                  "never frees the allocation the other still uses (guarded by their inequality, tear-down of both, or an "
+                  "allocation made in the same function)", primary=False, floor=4)
+    judged, alias_stores = memrules.alias_pair_free(prog, r5)
+    if alias_stores < 1 or judged < 4:
+        raise Broken("key/key_orig sites vanished (%d frees, %d alias stores)" % (judged, alias_stores))
